@@ -10,12 +10,13 @@ root=/tmp/mt-$name
 rm -rf "$root"; mkdir -p "$root"
 rsync -a --exclude target --exclude .git /repo/ "$root/repo/"
 mkdir -p "$root/verif"
-rsync -a --exclude target --exclude evidence --exclude replays --exclude .git /verif/ "$root/verif/"
+src=${VERIF_SRC:-/verif}
+rsync -a --exclude target --exclude evidence --exclude replays --exclude .git --exclude seeded "$src/" "$root/verif/"
 mkdir -p "$root/verif/replays" "$root/verif/evidence"
-[ -d /verif/replays/regress ] && cp -r /verif/replays/regress "$root/verif/replays/"
-for f in /verif/replays/KF-*.json; do [ -e "$f" ] && cp "$f" "$root/verif/replays/"; done
+[ -d "$src/replays/regress" ] && cp -r "$src/replays/regress" "$root/verif/replays/"
+for f in "$src"/replays/KF-*.json; do [ -e "$f" ] && cp "$f" "$root/verif/replays/"; done
 # reuse compiled registry dependencies
-if [ -d /verif/harness/target ]; then cp -a /verif/harness/target "$root/verif/harness/target"; fi
+if [ -d "$src/harness/target" ]; then cp -a "$src/harness/target" "$root/verif/harness/target"; fi
 if [ "$1" = "-e" ]; then
   expr=$2; file=$3; shift 3
   before=$(md5sum "$root/repo/$file")
